@@ -181,6 +181,19 @@ def r_C26state(root):
     r = w.call("clear_language_registrations")
     f = w.call("language_description", "mylang"); g = w.call("language_description", "entrylang")
     rep(is_err(f) and g[0] == "ret" and not w.G.get("metamodels"), "clear_language_registrations", "a clear forgets programmatic registrations and cached meta-models; entry points come back", "after clear_language_registrations the programmatic language %s, the entry-point language %s, cached meta-models: %s" % (show(f), show(g), sorted(w.G.get("metamodels") or {})))
+    # ---- registration on behalf of a project; all meta-models for a file
+    if "register_language_with_project" in fns:
+        w = World(); first = LD("ProjLang", "*.pl", metamodel=w.factory("ProjLang")); second = LD("projlang", "*.pl2", metamodel=w.factory("again"))
+        r1 = w.call("register_language_with_project", first, "proj", "1.0"); r2 = w.call("register_language_with_project", second, "proj", "1.0"); r3 = w.call("register_language_with_project", LD("PROJLANG", "*.pl3"), "other", "2.0")
+        l_ = w.call("language_description", "ProjLang")
+        rep(r1[0] == "ret" and first[".project_name"] == "proj" and first[".project_version"] == "1.0" and is_err(r2) and is_err(r3) and l_[0] == "ret" and l_[1] is first, "register_language_with_project", "a project's language is registered with the project's name and version; a duplicate name is refused whoever registers it",
+            "registering ProjLang for project proj 1.0 %s (project recorded as %r %r); a second language named projlang from the same project %s, one from another project %s; documented: TextXRegistrationError for both - one language per case-insensitive name, the first registration stays" % (show(r1), first[".project_name"], first[".project_version"], show(r2), show(r3)))
+    if "metamodels_for_file" in fns:
+        w = World(); qa = LD("QA", "*.q[ab]", metamodel=w.factory("QA")); qb = LD("QB", "*.qa", metamodel=w.factory("QB")); w.call("register_language", qa); w.call("register_language", qb)
+        for q, want in (("x.qa", ["QA", "QB"]), ("dir/x.qb", ["QA"]), ("*.q[ab]", ["QA"]), ("x.none", [])):
+            r = w.call("metamodels_for_file", q)
+            got = sorted(m_.get(".tag") for m_ in r[1]) if r[0] == "ret" and isinstance(r[1], list) and all(isinstance(m_, dict) for m_ in r[1]) else show(r)
+            rep(got == want, "metamodels_for_file", "meta-models for %r" % q, "metamodels_for_file(%r) gives %s; documented %s: the meta-model of every language that handles the name (the name equals the language's pattern or matches it)" % (q, got, want))
     # ---- generators
     w = World()
     r = w.call("generator_description", "entrylang", "t")
